@@ -261,19 +261,22 @@ pub fn miri_targeted_stage(ctx: &Ctx, build_dir: &Path) -> (u64, Option<Value>, 
 /// oracle in the default, compact and alloc configurations.  Quick: constants + 4 inputs; thorough: 150.
 /// Returns (violations, report, harness_error).
 pub fn l32_stage(ctx: &Ctx, build_dir: &Path) -> (u64, Option<Value>, Option<String>) {
-    if !matches!(ctx.id.as_str(), "C12" | "C14" | "C18") {
+    if !matches!(ctx.id.as_str(), "C12" | "C13" | "C14" | "C18") {
         return (0, None, None);
     }
     // C12: the generated big-integer operations themselves, on 32-bit limbs; C18: masks + rounding grid
     let sub = match ctx.id.as_str() {
         "C18" => "U32",
         "C12" => "C12",
+        "C13" => "C13",
         _ => "L32",
     };
     let harness = ctx.verif_dir.join("harness");
     let count: u64 = match (ctx.tier.name(), ctx.id.as_str()) {
         ("quick", "C12") => 8,
+        ("quick", "C13") => 2,
         ("quick", _) => 4,
+        (_, "C13") => std::env::var("VERIF_L32_CASES").ok().and_then(|s| s.parse().ok()).unwrap_or(40),
         _ => std::env::var("VERIF_L32_CASES").ok().and_then(|s| s.parse().ok()).unwrap_or(150),
     };
     let mut cmd = Command::new("cargo");
